@@ -249,9 +249,10 @@ def c04(prop, tier, seed, core):
     work = os.path.join(core.WORK, prop)
     known_sigs = [e["signature"] for e in core.known_for(prop)]
     # a cancel parked behind more forced commands than the ring has slots (one process)
-    add_hostile(m, core, prop, work, tier, ["deep-backlog-cancel"], known_sigs)
+    add_hostile(m, core, prop, work, tier, ["deep-backlog-cancel", "overlapping-flushes-cancelable"], known_sigs)
     m["rule"] = core.RULES["progsim"] + (" One separate process parks 10300 cancels of a bystander trace and then the cancel of a victim trace behind a full ring "
-                                          "(more forced commands than the ring has slots), lets the collector catch up and finishes the roots: nothing of either trace may be delivered, a later trace must be complete.")
+                                          "(more forced commands than the ring has slots), lets the collector catch up and finishes the roots: nothing of either trace may be delivered, a later trace must be complete. Another process keeps a flush() inside a slow report() while a root is cancelled, a second "
+                                          "flush() starts on another thread and late children finish: nothing of the cancelled trace may come out, a bystander trace must come out whole, once.")
     return m
 
 
